@@ -331,6 +331,7 @@ type agg struct {
 	harnessErrs []string
 	crashes     int
 	wallUS      int64
+	deadlocks   int
 	digests     map[int]string
 	pairs       map[string]struct{}
 	forcedTried map[string]struct{}
@@ -409,6 +410,14 @@ func runWorker(bin, id, tier string, seed uint64, from, to, step int, budget tim
 	deadline := time.Now().Add(budget)
 	subFrom := 0
 	for from < to {
+		// each deadlocked run costs two minutes of real time: after a few of them the verdict is
+		// in, the rest of the batch is not run
+		a.mu.Lock()
+		enough := a.deadlocks >= 3
+		a.mu.Unlock()
+		if enough {
+			return
+		}
 		env := map[string]string{
 			"VSIM_MODE": "batch", "VSIM_PROP": id, "VSIM_TIER": tier, "VSIM_SEED": strconv.FormatUint(seed, 10),
 			"VSIM_FROM": strconv.Itoa(from), "VSIM_TO": strconv.Itoa(to), "VSIM_STEP": strconv.Itoa(step),
@@ -533,6 +542,7 @@ func runWorker(bin, id, tier string, seed uint64, from, to, step int, budget tim
 				a.mu.Lock()
 				a.evals++
 				scj, class := genScenario(bin, id, tier, seed, inflight, inflightSub)
+				a.deadlocks++
 				sig := id + " deadlock @" + sites + " [" + class + "]"
 				a.addFound(&found{simID: id, sig: sig, run: inflight, sub: inflightSub, tier: tier, scenario: scj, res: &result{Violations: []violation{{Clause: "deadlock", Site: sites, Detail: "the run made no progress for 120 s of real time and the goroutine dump shows every goroutine under test blocked:\n" + lastN(stderr.String(), 6000)}}}, crash: "deadlock"})
 				a.mu.Unlock()
@@ -609,12 +619,16 @@ func deadlockSites(dump string) string {
 		}
 		state := dump[l[2]:l[3]]
 		blocked := false
-		for _, w := range []string{"sync.Mutex.Lock", "sync.RWMutex.Lock", "sync.RWMutex.RLock", "semacquire", "chan receive", "chan send", "select"} {
+		// (a sleep that has lasted minutes of real time: the fake clock cannot advance while a
+		// goroutine of the bubble waits for a real mutex)
+		for _, w := range []string{"sync.Mutex.Lock", "sync.RWMutex.Lock", "sync.RWMutex.RLock", "semacquire", "chan receive", "chan send", "select", "sleep", "sync.WaitGroup.Wait", "sync.Cond.Wait"} {
 			if strings.HasPrefix(state, w) {
 				blocked = true
 			}
 		}
-		if !blocked || !strings.Contains(state, "minutes") {
+		// (goroutines of a bubble carry no real waiting time in the dump: that the whole run made
+		// no progress for two minutes is the watchdog's finding)
+		if !blocked || !(strings.Contains(state, "minutes") || strings.Contains(state, "synctest bubble")) {
 			return ""
 		}
 		if strings.Contains(state, "Mutex") || strings.HasPrefix(state, "semacquire") {
@@ -898,7 +912,9 @@ func check(id, tier string) int {
 	cores := runtime.NumCPU()
 	legInfo := map[string]int{}
 	for _, lg := range m.Legs {
-		curLegClosed = lg.Closed
+		// (a controlled leg is a closed world too: device, clock and scheduler are all inside the
+		// process, and the controller never parks a goroutine that holds a real lock)
+		curLegClosed = lg.Closed || (lg.Name != "OS" && !lg.Race)
 		lbin := bin
 		if lg.Race {
 			lbin, err = build(scratch, true)
